@@ -13,6 +13,8 @@ let parse_op (s : string) : C18Model.op option * (int * int) option =
   | ["wr"; a] -> (match split_on ',' a with
       | [k; i; v] -> (Some (C18Model.OWrite (nat_of_int (int_of_string k), nat_of_int (int_of_string i), z_of_int (int_of_string v))), None)
       | _ -> failwith "wr")
+  | ["oth"; _] -> (* activity on another buffer: no effect on this one; modelled as a write through a window that does not exist *)
+      (Some (C18Model.OWrite (nat_of_int 5000, nat_of_int 0, z_of_int 0)), None)
   | ["ser"] | ["ser"; ""] -> (Some (C18Model.OSer []), None)
   | ["ser"; a] ->
       let ls = Stdlib.List.map (fun l -> match split_on '.' l with
